@@ -5,7 +5,7 @@ For every selected mutant: write it into a private scratch worktree of /repo's H
 repository test-suite; if the suite still passes ("survivor"), run the quick tier of the checks mapped to the mutated file
 (VERIF_REPO / VERIF_OUT) and record whether any of them reports a violation.  Nothing is applied to /repo.
 
-usage: tools_mutate.py [-j 4] [--per-file 25] [--files a.py,b.py] [--out /tmp/mutants.jsonl]
+usage: tools_mutate.py [-j 4] [--per-file 25] [--offset 0] [--files a.py,b.py] [--out /tmp/mutants.jsonl]
 Mutation operators (AST based, one node per mutant): comparison boundary (< <=, > >=, == !=), + <-> -, * <-> /,
 small integer constant +1, removal of .conjugate()/.conj(), removal of unary minus.  The subset is chosen deterministically
 (every k-th candidate of a file), never at random."""
@@ -13,13 +13,14 @@ import ast, json, os, shutil, subprocess, sys, tempfile, copy
 from concurrent.futures import ThreadPoolExecutor
 
 VERIF = os.path.dirname(os.path.abspath(__file__))
-FILE_CHECKS = {
-    'periodogram.py': ['C01', 'C08', 'C05', 'C07'], 'psd.py': ['C07', 'C06', 'C02', 'C08'], 'correlog.py': ['C01', 'C05', 'C02'],
-    'correlation.py': ['C09', 'C12', 'C01'], 'burg.py': ['C13', 'C16', 'C03'], 'yulewalker.py': ['C12', 'C02', 'C04'],
-    'covar.py': ['C14', 'C15', 'C03'], 'modcovar.py': ['C14', 'C03', 'C02'], 'arma.py': ['C15', 'C08', 'C05', 'C02'], 'minvar.py': ['C16', 'C02', 'C05'],
-    'eigenfre.py': ['C17', 'C02', 'C05', 'C03'], 'mtm.py': ['C19', 'C18', 'C02', 'C05'], 'tools.py': ['C06', 'C02'], 'levinson.py': ['C10', 'C11', 'C12'],
-    'toeplitz.py': ['C10'], 'cholesky.py': ['C10'], 'linear_prediction.py': ['C11'], 'lpc.py': ['C12'], 'linalg.py': ['C09', 'C14'],
-    'window.py': ['C20', 'C01'], 'criteria.py': ['C13', 'C03', 'C17'],
+FILE_CHECKS = {   # first the checks anchored in the file, then the checks that reach it through callers
+    'periodogram.py': ['C01', 'C08', 'C05', 'C07', 'C02', 'C06'], 'psd.py': ['C07', 'C06', 'C02', 'C08', 'C05', 'C01'], 'correlog.py': ['C01', 'C05', 'C02', 'C08'],
+    'correlation.py': ['C09', 'C12', 'C01', 'C03', 'C04', 'C15', 'C05'], 'burg.py': ['C13', 'C16', 'C03', 'C04', 'C02', 'C05', 'C08'],
+    'yulewalker.py': ['C12', 'C02', 'C04', 'C03'], 'covar.py': ['C14', 'C15', 'C03', 'C04', 'C02'], 'modcovar.py': ['C14', 'C03', 'C02', 'C04'],
+    'arma.py': ['C15', 'C08', 'C05', 'C02', 'C04', 'C03', 'C06'], 'minvar.py': ['C16', 'C02', 'C05', 'C08'],
+    'eigenfre.py': ['C17', 'C02', 'C05', 'C03'], 'mtm.py': ['C19', 'C18', 'C02', 'C05', 'C08'], 'tools.py': ['C06', 'C02', 'C07'],
+    'levinson.py': ['C10', 'C11', 'C12', 'C04', 'C03'], 'toeplitz.py': ['C10'], 'cholesky.py': ['C10'], 'linear_prediction.py': ['C11'], 'lpc.py': ['C12'],
+    'linalg.py': ['C09', 'C14', 'C17'], 'window.py': ['C20', 'C01', 'C08', 'C05'], 'criteria.py': ['C13', 'C03', 'C17'],
 }
 SKIP_FUNCS = ('plot', '__str__', '_str_title', 'info', 'window_visu', 'compute_response', 'create_figure', 'spectrum_set_level')
 
@@ -144,7 +145,7 @@ def run_one(job):
 
 def main():
     args = sys.argv[1:]
-    j, per, out, files = 4, 25, '/tmp/mutants.jsonl', None
+    j, per, out, files, offset = 4, 25, '/tmp/mutants.jsonl', None, 0
     while args:
         a = args.pop(0)
         if a == '-j':
@@ -155,6 +156,8 @@ def main():
             out = args.pop(0)
         elif a == '--files':
             files = args.pop(0).split(',')
+        elif a == '--offset':
+            offset = int(args.pop(0))      # 0 <= offset < step: a second stage takes the candidates the first one skipped
     tmp = tempfile.mkdtemp(prefix='verif_mut_')
     wts = []
     for i in range(j):
@@ -181,7 +184,9 @@ def main():
         c.visit(ast.parse(src))
         total = len(c.cands)
         step = max(1, total // per)
-        for index in range(0, total, step):
+        if offset and step == 1:
+            continue        # the first stage already took every candidate of this file
+        for index in range(min(offset, step - 1), total, step):
             jobs_by_wt[n % j].append((fname, index, wts[n % j]))
             n += 1
     print('%d mutants selected' % n)
